@@ -244,6 +244,62 @@ u_cfg(uint64_t idx, void *arg)
                             "and wrapping part accesses, every single-octet alteration");
 }
 
+/* set-up histories: the same instance is placed and given checksum algorithms several times, in any order,
+ * before it is used; what counts is the last placement and the last algorithm */
+static void
+u_reconf(uint64_t idx, void *arg)
+{
+    (void)arg;
+    static const size_t sizes[] = { 1, 2, 3, 5, 8, 9, 16, 33 };
+    vh_rng r;
+    vh_unit_rng(&r, "reconf", idx);
+    ncase = 0;
+    for (int rep = 0; rep < 6; rep++) {
+        size_t size = sizes[vh_below(&r, sizeof sizes / sizeof sizes[0])];
+        int ck = (int)vh_below(&r, NCK);
+        uint32_t place = ps_place_of((int)vh_below(&r, PS_NPLACES), ck, size);
+        int n = 0, prev_ck = CK_DEFAULT, width_changed_after_place = 0;
+        int pre = (int)vh_below(&r, 5);
+        for (int i = 0; i < pre; i++) {
+            unsigned k = (unsigned)vh_below(&r, 5);
+            if (k < 2) {
+                ps_hist[n].op = PH_PLACE;
+                ps_hist[n++].arg = ps_place_of((int)vh_below(&r, PS_NPLACES), (int)vh_below(&r, NCK), size);
+            } else if (k < 4) {
+                ps_hist[n].op = PH_SUM;
+                prev_ck = (int)vh_below(&r, NCK);
+                ps_hist[n++].arg = (uint32_t)prev_ck;
+            } else {
+                ps_hist[n].op = PH_BUFFER;
+                ps_hist[n++].arg = (uint32_t)vh_below(&r, sizeof ps_hist_buf + 1);
+            }
+        }
+        int place_first = (int)vh_below(&r, 2);
+        for (int k = 0; k < 2; k++) {
+            if ((k == 0) == place_first) {
+                ps_hist[n].op = PH_PLACE;
+                ps_hist[n++].arg = place;
+            } else {
+                ps_hist[n].op = PH_SUM;
+                ps_hist[n++].arg = (uint32_t)ck;
+            }
+        }
+        if (place_first && ps_cksize(prev_ck) != ps_cksize(ck))
+            width_changed_after_place = 1;
+        ps_hist_n = n;
+        int with_aux = (int)vh_below(&r, 2);
+        size_t auxsize = with_aux ? (size_t)vh_below(&r, size + 2) : 0;
+        VH_COUNT("set-up history checked");
+        if (width_changed_after_place)
+            VH_COUNT("set-up history changing the checksum width after the last placement");
+        if (ps_cksize(prev_ck) > ps_cksize(ck) && place_first)
+            VH_COUNT("set-up history narrowing the checksum after the last placement");
+        one_config(size, place, ck, with_aux, auxsize, &r, 0);
+        ps_hist_n = 0;
+    }
+    *vh_ncases += ncase;
+}
+
 void
 harness_run(void)
 {
@@ -256,7 +312,10 @@ harness_run(void)
         for (size_t i = 0; i < sizeof quick_sizes / sizeof quick_sizes[0]; i++)
             vh_unit("cfg", quick_sizes[i], u_cfg, NULL);
     }
-    static const char *req[] = { "reset checked", "full store checked", "partial store + fetch checked",
+    for (uint64_t i = 0; i < (vh_tier ? 4000u : 300u); i++)
+        vh_unit("reconf", i, u_reconf, NULL);
+    static const char *req[] = { "set-up history changing the checksum width after the last placement",
+                                 "set-up history narrowing the checksum after the last placement", "reset checked", "full store checked", "partial store + fetch checked",
                                  "out-of-range part access", "out-of-range part access whose offset+length wraps",
                                  "alteration detected by the checksum",
                                  "auxiliary buffer non-NULL with size 0", "data size 1", "data size 40",
